@@ -59,6 +59,11 @@ def build_cli():
     for t in TOOLS:
         if not os.path.exists(os.path.join(CLI, t)):
             raise Infra("tool %s was not built" % t)
+    # sign-bundle once more with the hook of /repo commit 0264ba8 compiled in (build tag verif): identical unless
+    # VERIF_STRATEGY=rotating is in the environment, then the signing strategy's key rotates after its first answer
+    p = subprocess.run(["go", "build", "-tags", "verif", "-o", os.path.join(CLI, "sign-bundle-verif"), "./go/bundle/cmd/sign-bundle"], cwd=REPO, env=GOENV, capture_output=True, text=True)
+    if p.returncode != 0:
+        raise Infra("building sign-bundle with -tags verif failed:\n" + p.stderr[-3000:])
 
 
 def run(tool, args, cwd, env=None, timeout=60, stdin_bytes=None):
@@ -165,7 +170,11 @@ def _dir_pipeline(pl, sd, fix, info, cid):
             key = os.path.join(fix, "ed25519-encrypted.key" if kf == "encrypted" else "ed25519-pkcs8.key")
             env = {"WEB_BUNDLE_SIGNING_PASSPHRASE": "verif-passphrase"} if kf == "encrypted" else {}
             signed = os.path.join(sd, "ib.swbn")
-            rcs, sos, ses = run("sign-bundle", ["integrity-block", "-i", out, "-o", signed, "-privateKey", key], sd, env=env)
+            strat = p2.get("strategy", "stable")
+            if strat == "rotating":
+                env = dict(env, VERIF_STRATEGY="rotating")
+            rcs, sos, ses = run("sign-bundle-verif" if strat != "stable" or p2.get("hooked") else "sign-bundle", ["integrity-block", "-i", out, "-o", signed, "-privateKey", key], sd, env=env)
+            env.pop("VERIF_STRATEGY", None)
             m = re.search(rb"Web Bundle ID: (\S+)", sos)
             if kf == "public":
                 rci, soi, sei = run("sign-bundle", ["dump-id", "-publicKey", os.path.join(fix, "ed25519-pub.pem")], sd)
@@ -173,7 +182,7 @@ def _dir_pipeline(pl, sd, fix, info, cid):
                 rci, soi, sei = run("sign-bundle", ["dump-id", "-privateKey", key], sd, env=env)
             mi = re.search(rb"Web Bundle ID: (\S+)", soi)
             rcd, _, _ = run("dump-bundle", ["-i", signed], sd)       # refused by design
-            events.append({"case": cid + "-ib", "kind": "ibcli", "infile": list(read(out)), "out": list(read(signed)), "pk": info["ed25519-pub"], "sign_exit": rcs,
+            events.append({"case": cid + "-ib", "kind": "ibcli", "infile": list(read(out)), "out": list(read(signed)), "pk": info["ed25519-pub"], "pk2": info["ed25519-pub2"], "strategy": strat, "sign_exit": rcs,
                            "id": list(m.group(1)) if m else [], "dumpid_exit": rci, "dumpid": list(mi.group(1)) if mi else [], "keyform": kf,
                            "dump_refuses": rcd != 0, "stderr": (ses + sei).decode("latin1")[-300:]})
     return events
@@ -643,6 +652,15 @@ def ib_cli(rep, pid):
                 sd = vlib.fresh(os.path.join(scratch, "ib%d" % i))
                 events += [e for e in _dir_pipeline(pl, sd, fix, info, "ibcli%d" % i) if e["kind"] == "ibcli"]
                 shutil.rmtree(sd, ignore_errors=True)
+        # a signing strategy whose key changes between two requests (an HSM slot re-keyed meanwhile), through the hook of
+        # /repo 0264ba8; and the hooked binary with the hook idle, which must behave as the production one
+        for kf, st, hk in (("pkcs8", "rotating", True), ("encrypted", "rotating", True), ("pkcs8", "stable", True)):
+            i += 1
+            pl = [{"tool": "gen-bundle -dir", "p": {"names": "plain" if i % 2 else "nested", "ver": "b2", "base": "root", "override": "none"}},
+                  {"tool": "sign-bundle integrity-block", "p": {"keyform": kf, "strategy": st, "hooked": hk}}, {"tool": "sign-bundle dump-id", "p": {"keyform": kf}}]
+            sd = vlib.fresh(os.path.join(scratch, "ib%d" % i))
+            events += [e for e in _dir_pipeline(pl, sd, fix, info, "ibcli%d-%s" % (i, st)) if e["kind"] == "ibcli"]
+            shutil.rmtree(sd, ignore_errors=True)
         # output on another filesystem than the scratch / temporary directory (a tool that stages its output elsewhere and
         # renames it into place must stage it next to the destination)
         shm = "/dev/shm"
